@@ -313,6 +313,13 @@ func Main(r *core.Run) {
 	})
 	boundValues(r)
 	histories(r)
+	var hv []ref.Val
+	for _, c := range cases {
+		if c.Impl == "basic-any" && !c.Big {
+			hv = append(hv, c.V)
+		}
+	}
+	RunHelpers(r, "dag-cbor", dagcbor.Encode, dagcbor.Decode, hv)
 	r.Sample(map[string]any{"value": cases[len(cases)/2].V.String(), "impl": cases[len(cases)/2].Impl})
 	r.Sample(map[string]any{"value": cases[len(cases)/3].V.String(), "impl": cases[len(cases)/3].Impl})
 	r.Set("cases", len(cases))
@@ -350,6 +357,11 @@ func Replay(r *core.Run, raw json.RawMessage) {
 	var hc HCase
 	if json.Unmarshal(raw, &hc) == nil && hc.Fault != "" {
 		r.Report("history", hc, CheckHistory(hc))
+		return
+	}
+	var hp HelperCase
+	if json.Unmarshal(raw, &hp) == nil && hp.Codec != "" {
+		r.Report("helpers", hp, CheckHelpers(hp.Codec, dagcbor.Encode, dagcbor.Decode, hp.V))
 		return
 	}
 	var bc BoundCase
